@@ -89,15 +89,27 @@ fn cause_class(rule: &str) -> &'static str {
     "patterns"
 }
 
+/// the module whose per-thread state a rule observes
+fn cache_module(rule: &str) -> &'static str {
+    let r = rule.rsplit(':').next().unwrap_or(rule);
+    if r == "cuckoo_dns" { "cuckoo" } else if r == "imphash_def" { "pe" } else if r == "ent_big" || r == "h_ent" { "math" } else { "hash" }
+}
+
 /// the root cause a minimised difference is attributed to (known findings are listed by these)
-fn root_cause(class: &str, block_probe: bool, h: &[Op]) -> String {
+fn root_cause(class: &str, block_probe: bool, h: &[Op], differing: &[String]) -> String {
     let has = |k: &str| h.iter().any(|o| o.kind() == k);
     let timed_out = has("block_finish_timeout") || has("block_scan_timeout");
     let user_out = has("set_module_output");
-    if block_probe && matches!(class, "filesize" | "module-fields" | "thread-local-cache") {
+    if class == "thread-local-cache" {
+        // which module's per-thread state leaked (hash and math are scan-scoped since fix d9b2a73c: they must not appear)
+        let mut mods: Vec<&str> = differing.iter().map(|d| cache_module(d)).collect();
+        mods.sort(); mods.dedup();
+        if block_probe { return format!("module-thread-local-survives-into-block-mode:{}", mods.join("+")); }
+        if user_out { return format!("user-supplied-module-output-skips-thread-local-reset:{}", mods.join("+")); }
+    }
+    if block_probe && matches!(class, "filesize" | "module-fields") {
         return format!("{}-survives-into-block-mode", class);
     }
-    if !block_probe && class == "thread-local-cache" && user_out { return "user-supplied-module-output-skips-thread-local-cache-reset".into(); }
     if !block_probe && user_out && has("scan_module_error") { return "module-error-leaves-user-supplied-outputs".into(); }
     if block_probe && class == "patterns" && timed_out { return "snippets-survive-timed-out-block-scan".into(); }
     format!("unclassified:{}:{}:{}", class, if block_probe { "block" } else { "contiguous" }, shape(h))
@@ -215,6 +227,12 @@ fn corpus() -> Vec<(usize, Vec<Op>, Probe)> {
         (1, vec![Op::SetTimeout { secs: 1000 }, Op::IntoBlocks, Op::BlockScan { base: 0, buf: 2, timeout_at: None }, Op::BlockFinish { timeout_at: Some(1) }], Probe { blocks: vec![(0, 4)] }),
         // timeouts at several polls, then a contiguous probe
         (0, vec![Op::SetTimeout { secs: 1000 }, Op::Scan { buf: 3, timeout_at: Some(1) }, Op::Scan { buf: 3, timeout_at: Some(9) }, Op::Scan { buf: 5, timeout_at: Some(30) }], Probe { blocks: vec![(0, 0)] }),
+        // the cuckoo report of the previous scan (a thread-local that is not scan-scoped) in block mode ...
+        (0, vec![Op::ScanOpts { buf: 0, bad_meta: false }, Op::IntoBlocks], Probe { blocks: vec![(0, 2)] }),
+        // ... and when the output of cuckoo is supplied by the user
+        (0, vec![Op::ScanOpts { buf: 0, bad_meta: false }, Op::SetModuleOutput { which: 4 }], Probe { blocks: vec![(0, 8)] }),
+        // byte distribution cache of math with a user-supplied math output (two buffers >= 5000 bytes)
+        (2, vec![Op::Scan { buf: 5, timeout_at: None }, Op::SetModuleOutput { which: 2 }], Probe { blocks: vec![(0, 6)] }),
         (0, vec![Op::MaxMatches { n: 1 }, Op::FastScan { on: true }, Op::Scan { buf: 3, timeout_at: None }, Op::Scan { buf: 6, timeout_at: None }], Probe { blocks: vec![(0, 4)] }),
     ]
 }
@@ -297,7 +315,7 @@ pub fn run(args: &[String]) -> i32 {
                 let (u2, f2, _, _) = run_pair(&sets, &bufs, rs, &hmin, &p);
                 let d2: Vec<String> = u2.outcome.diff(&f2.outcome).into_iter().filter(|d| cause_class(d) == class).collect();
                 stats.inc(&format!("differs_{}", class));
-                let extra = format!(",\"root_cause\":\"{}\",\"cause_class\":\"{}\",\"differing_rules\":{},\"shape\":\"{}\",\"original_history_len\":{}", root_cause(class, blocks, &hmin), class, json_str(&d2.join(",")), shape(&hmin), h.len());
+                let extra = format!(",\"root_cause\":\"{}\",\"cause_class\":\"{}\",\"differing_rules\":{},\"shape\":\"{}\",\"original_history_len\":{}", root_cause(class, blocks, &hmin, &d2), class, json_str(&d2.join(",")), shape(&hmin), h.len());
                 emit(&hmin, &u2, &f2, extra, &mut shards, &mut samples);
             }
         }
